@@ -93,6 +93,9 @@ func c06One(r *rep.Run, w *c06worker, src string, ci int, st *c06stats, deep boo
 		return
 	}
 	atomic.AddInt64(&st.compiled, 1)
+	if len(src) > 2000 {
+		r.Tick() // long inputs: every stage is progress
+	}
 	// Dump / DumpTable
 	var key string
 	if p, site := drive.Fence(func() { key = eval.Dump(e) + eval.DumpTable(e, true); eval.DumpTable(e, false) }); p != nil {
@@ -131,6 +134,9 @@ func c06One(r *rep.Run, w *c06worker, src string, ci int, st *c06stats, deep boo
 		for vi, xv := range c06Values {
 			if !deep && vi >= 6 {
 				break
+			}
+			if len(src) > 2000 {
+				r.Tick()
 			}
 			for _, mode := range []int{0, 1, 2} { // Eval, TryEval all available, TryEval none available
 				f := &c06fetch{x: xv, u: c06Values[(vi+1)%len(c06Values)], avail: mode != 2}
@@ -452,7 +458,7 @@ func c06Scaled(r *rep.Run, ws []*c06worker, st *c06stats) {
 	deep := []int{100, 400}
 	flat := []int{100, 1000, 100000}
 	if r.Thorough() {
-		deep = []int{100, 400, 1000, 3000}
+		deep = []int{100, 400, 1000} // (Dump of a 3000-deep nest takes minutes: slow, not a hang)
 		flat = []int{100, 1000, 20000, 100000}
 	}
 	for _, n := range deep {
